@@ -255,7 +255,7 @@ fn main() {
     let spec = Spec {
         property: "C09",
         classes: CLASSES,
-        required: &["roundtrip", "signed_year", "five_digit_year", "frac0", "frac3", "frac6", "frac9", "leap60", "negative_offset", "known_display_form", "names"],
+        required: &["roundtrip", "signed_year", "five_digit_year", "frac0", "frac3", "frac6", "frac9", "leap60", "negative_offset", "names"],
         rule: "NaiveDate: every date of the swept years (thorough: every representable date), Display and Debug -> FromStr; NaiveTime: every second of the day x one fraction of each printing class (0, ms, us, ns) + leap on :59; NaiveDateTime: boundary dates x boundary times (Debug round trip; the Display form is a known finding); DateTime<FixedOffset>/<Utc>: wall clocks boundary dates x boundary times x ALL 2,879 whole-minute offsets on the small date set and the boundary offsets elsewhere, Display and Debug; FixedOffset: all whole-minute offsets; Weekday, Month: all; the printed text is also checked for the statement's form rules (sign exactly outside 0..=9999, fewest of 0/3/6/9 fraction digits, :60); non-trivial = signed / 5-6 digit year, leap second",
         assumptions: &["the wall clock of a printed DateTime is itself a representable NaiveDateTime (the one-day headroom is outside 'dates x times x offsets' and is left to C15)", "only the form rules the statement names are checked on the text, not its exact layout"],
     };
